@@ -87,6 +87,14 @@ def extract(config="mip04", repo=None, quiet=False):
     """Return the directory holding one facts JSON per workspace crate for the current tree."""
     repo = repo or REPO
     os.makedirs(CACHE, exist_ok=True)
+    # a complete entry (directories are renamed into place atomically) needs no lock
+    out = facts_dir(config, repo)
+    if all(os.path.exists(os.path.join(out, c + ".json")) for c in CRATES):
+        try:
+            os.utime(os.path.dirname(out))
+        except OSError:
+            pass
+        return out
     lock = open(os.path.join(CACHE, "extract.lock"), "w")
     fcntl.flock(lock, fcntl.LOCK_EX)
     try:
